@@ -31,12 +31,14 @@ TRUSTED = [
     'the interleaving model is at the granularity of the atomic steps call/acquire/lookup/decide/parse/callback/store/release/return; the real threads are preempted at source-line granularity inside genshi/template/loader.py and genshi/util.py only',
     'assumed, not modelled: the GIL, atomicity of single byte codes and of dict operations, threading.RLock itself (wrapped, not replaced), the memory model of CPython',
     'the scheduler (harness/sched.py, sys.monitoring LINE events) and the recording proxies are harness code',
+    'lock order: every lock a genshi module creates is wrapped by harness/lockwatch.py (proxy for the name threading in the genshi modules, module-level lock objects replaced by one proxy each); which locks exist and how their acquisitions nest is observed on the explored runs only; the lock model (Genshi/Model/LockOrder.lean) has re-entrant locks only and is tied by replaying the recorded lock events of every run (stream lock-model) and of seeded programs over real threading.RLocks (stream lock-model-synthetic)',
     'modelled, not verified: TemplateLoader.load / LRUCache (as in C15), Template._prepare only as "the callback performs these nested loads"',
 ]
 ASSUMPTIONS = [
     'files do not change while the threads run (modifications happen in the set-up phase), except in the scenarios with a writer thread, which replaces a file (rename over the name) at every yield point of a load: those runs are judged by the oracle only (any version the file had is a correct result; a load after quiescence must return the current one)',
     'includes form a tree (no cycles), static hrefs, and are prepared under the lock by the callback (callback = lambda t: t.stream)',
     'schedules are explored up to a preemption bound and by seeded sampling: partial by nature',
+    'a cycle in the observed held -> wanted lock graph without a common gate lock is reported as a potential deadlock even when no explored schedule exhibits it (no analysis of object publication / happens-before)',
 ]
 
 DIR = 0
